@@ -103,6 +103,10 @@ type gen struct {
 	cfg  *Config
 	nset int
 	port int
+	// prevListen: the last plain listen address handed out, as (network is udp?, host:port), so that the same
+	// host and port can come up again on the other network (DNS-style tcp/:53 + udp/:53)
+	prevUDP      bool
+	prevHostPort string
 }
 
 func (g *gen) use(kind, module, option string) {
@@ -200,6 +204,24 @@ func itoa(i int) string {
 }
 
 func (g *gen) listenAddr() string {
+	if g.prevHostPort != "" && g.p(0.2) {
+		hp, udp := g.prevHostPort, g.prevUDP
+		g.prevHostPort = ""
+		if udp {
+			return "tcp/" + hp
+		}
+		return "udp/" + hp
+	}
+	a := g.listenAddrFresh()
+	g.prevHostPort = ""
+	if !strings.Contains(a, "-") && !strings.HasPrefix(a, "localhost") && !strings.HasPrefix(a, "tcp4/") {
+		g.prevUDP = strings.HasPrefix(a, "udp/")
+		g.prevHostPort = strings.TrimPrefix(strings.TrimPrefix(a, "udp/"), "tcp/")
+	}
+	return a
+}
+
+func (g *gen) listenAddrFresh() string {
 	port := itoa(1024 + g.n(64000))
 	switch g.n(12) {
 	case 0:
